@@ -25,7 +25,7 @@ LEVEL = "exploration"
 RULE = (
     "Hypothesis draws pairs of small runs (A, B) with <=6 (quick) / <=8 (thorough) objective calls each, optional gradient scaler; ALL interleavings of their objective calls on two threads are "
     "enumerated through a harness-owned baton (up to 252 words per pair in quick, 3432 in thorough; a deterministic stride sample beyond), plus nested invocations (B minimised completely inside A's "
-    "objective at a drawn call), read-only and integer-typed x0/bounds/checkpoint arrays, a user gradient that returns one reused output buffer (must not be modified nor aliased), restart twice from the same checkpoint object (with and without scaler), every iprint level with and without "
+    "objective at a drawn call), read-only and integer-typed x0/bounds/checkpoint arrays, x0 and bounds as non-contiguous views of larger arrays (whose other entries must stay untouched) and bounds in Fortran order, a user gradient that returns one reused output buffer (must not be modified nor aliased), restart twice from the same checkpoint object (with and without scaler), every iprint level with and without "
     "logger, a free-running two-thread run with a 1 microsecond switch interval, and (1 case in 40) the same call in a fresh interpreter. Oracle: bitwise equality with the solo result computed first; inputs byte-identical afterwards. "
     "non-trivial = the schedule switches threads >=2 times while both runs are inside their main loop, or the call is nested, or an input is read-only / a checkpoint; distinct = distinct (pair, schedule)"
 )
@@ -203,6 +203,16 @@ def check_inputs(spec, stats=None):
     elif variant == "list-bounds":
         x0v = x0.copy()
         bv = [(None if not np.isfinite(l) else float(l), None if not np.isfinite(u) else float(u)) for l, u in bounds]
+    elif variant == "strided":
+        # a member of a population matrix / a slice of a larger parameter vector: non-contiguous views, read-only
+        xbuf = np.full(2 * x0.size, 0.123)
+        xbuf[::2] = x0
+        bbuf = np.full((x0.size, 4), -7.5)
+        bbuf[:, 1:3] = bounds
+        xbuf_copy, bbuf_copy = xbuf.copy(), bbuf.copy()
+        x0v, bv = xbuf[::2], bbuf[:, 1:3]
+    elif variant == "fortran":
+        x0v, bv = x0.copy(), np.asfortranarray(bounds)
     else:
         x0v, bv = x0.copy(), bounds.copy()
     x0_bytes = np.array(x0v, copy=True)
@@ -215,6 +225,8 @@ def check_inputs(spec, stats=None):
         require(np.array_equal(bv, b_copy), f"inputs-untouched[bounds,{variant}]", "bounds modified")
     else:
         require(bv == b_copy, f"inputs-untouched[bounds,{variant}]", "bounds modified")
+    if variant == "strided":
+        require(np.array_equal(xbuf, xbuf_copy) and np.array_equal(bbuf, bbuf_copy), "inputs-untouched[memory-around-a-view]", "the arrays that x0 / bounds are views of were modified")
     same(base, tr, f"input-variant-{variant}")
     # --- the same call in a fresh interpreter (sampled: process start-up is ~1 s)
     if spec.get("fresh_process"):
@@ -336,7 +348,7 @@ def pair_strategy(draw, maxfun_hi, cap):
 @st.composite
 def inputs_strategy(draw):
     r = draw(run_spec(families=ALL_FAMILIES, n_max=6, jac_modes=("callable", "callable", None), maxiter=(1, 10), maxfun=(3, 60), ftols=(0.0, 1e-12), gtols=(1e-8,), with_scaler=True, units=True))
-    return {"run": r, "variant": draw(st.sampled_from(["readonly", "readonly", "list-bounds", "plain"])), "int_x0": draw(st.booleans()),
+    return {"run": r, "variant": draw(st.sampled_from(["readonly", "readonly", "list-bounds", "plain", "strided", "fortran"])), "int_x0": draw(st.booleans()),
             "ck_readonly": draw(st.booleans()), "restart_scaler": draw(st.sampled_from([None, None, 0.5, 4.0])), "extra_iter": draw(st.integers(0, 3)),
             "fresh_process": draw(st.integers(0, 39)) == 0}
 
